@@ -311,7 +311,7 @@ func findShapeMain(args []string) int {
 				mu.Lock()
 				found++
 				fmt.Printf("CANDIDATE seed=%d events=%d partial=%d free=%d orders_that_differ=%d\n", seed, len(shape), partial, len(free), differs)
-				if differs > 0 {
+				if differs > 0 || os.Getenv("FINDSHAPE_PRINT") != "" {
 					fmt.Println(shapeLiteral(shape))
 				}
 				mu.Unlock()
